@@ -34,7 +34,8 @@
 (*            over the self alphabet: == / != of an object with ITSELF,    *)
 (*            hash, dict put / get of itself, copies and mapper results    *)
 (*            and the same on those ("selfn": the NaN-carrying members at  *)
-(*            depth SelfDepth + 1; "ssmall": three of them, no emission)   *)
+(*            depth SelfDepth + 1; "ssmall": three of them, no emission;   *)
+(*            "nsmall": two NaN twin pairs, full alphabet, thorough tier)  *)
 (***************************************************************************)
 EXTENDS C01_Objects, C01_Catalogue, Json
 CONSTANTS Sweeps, PairDepth, NearDepth, DeepDepth, HierDepth, XDepth, SelfDepth, Wide, EmitCases
@@ -70,10 +71,10 @@ SmallPairs == {
     << Bin("ULeg", One, M1), Bin("ULeg", One, M2) >>,
     << Bin("ULeg", One, Two), Bin("ULeg", OneB, Two) >>,
     << Bin("Lookup", x, CStr("p")), Bin("Lookup", x, CStr("q")) >>,
-    << CallKwN(ff, << x >>, Dct(A1B2)), CallKwN(ff, << x >>, Imm(<< KwE("b", Two), KwE("a", One) >>)) >>,
-    \* a value that is not == itself, the same float object in the tuple field of two nodes
-    \* (equal through the identity of the element; "ssmall" has it directly in a field)
-    << Ch("Sum", << x, N1 >>), Ch("Sum", << x, N1 >>) >> }
+    << CallKwN(ff, << x >>, Dct(A1B2)), CallKwN(ff, << x >>, Imm(<< KwE("b", Two), KwE("a", One) >>)) >> }
+\* a value that is not == itself: the same float object directly in a field of two nodes,
+\* in the tuple field of two nodes (equal through the identity of the element)
+NaNSmallPairs == { << PowN1, PowN1 >>, << Ch("Sum", << x, N1 >>), Ch("Sum", << x, N1 >>) >> }
 SelfSmall == { << PowN1 >>, << Un("LogicalNot", PowN1) >>, << U3("ULegChild", x, y, N1) >> }
 
 \* how the objects of a tuple arrive (position by position; beyond its length: built here)
@@ -92,6 +93,7 @@ Init ==
                   [] sweep = "deep"  -> RepPairs \cup RepTriples
                   [] sweep = "deepq" -> RepPairsQuick \cup RepTriplesQuick
                   [] sweep = "small" -> SmallPairs
+                  [] sweep = "nsmall" -> NaNSmallPairs
                   [] sweep = "sim"   -> UPairs \cup RepTriples \cup HierTuples
                   [] sweep = "hier"  -> IF Wide THEN HierTuples ELSE HierTuplesQuick
                   [] sweep = "hsmall" -> HierSmall
@@ -160,7 +162,7 @@ FullAlphabet ==
 Depth == CASE sweep = "pairs" -> PairDepth
            [] sweep = "near"  -> NearDepth
            [] sweep \in {"deep", "deepq"}  -> DeepDepth
-           [] sweep = "small" -> DeepDepth
+           [] sweep \in {"small", "nsmall"} -> DeepDepth
            [] sweep = "sim"   -> 1000
            [] sweep \in {"hier", "hsmall"} -> HierDepth
            [] sweep \in {"xtwin", "xsmall"} -> XDepth
